@@ -2562,7 +2562,11 @@ int32 parseCertificateRequest(ssl_t *ssl,
         while (len >= 2)
         {
             uint32_t val = HASH_SIG_MASK(c[0], c[1]);
-            keySelect->peerSigAlgs[nSigAlg++] = val;
+            /* The list in the message can be longer than what we keep. */
+            if (nSigAlg < TLS_MAX_SIGNATURE_ALGORITHMS)
+            {
+                keySelect->peerSigAlgs[nSigAlg++] = val;
+            }
             ssl->peerSigAlg |= val;
             c += 2;
             len -= 2;
